@@ -114,7 +114,7 @@ impl PosOracle for C02 {
 pub const RULE: &str = "transitions = every legal move (reference menu) applied with the library's make_move_new at every state of the bounded trees and families; each judged: all 64 squares, side to move, both castling rights against the reference successor; en-passant sandwich (recorded only after a double push beside an enemy pawn, always when a legal capture exists); make_move into 4 different output pre-states == make_move_new; source unchanged. distinct_nontrivial = judged transitions that are a capture, castle, en passant, promotion, double push or change castling rights";
 
 pub fn run(tier: Tier) -> i32 {
-    let (run, _) = run_e1("C02", tier, COUNTERS, C02, with_ep_slider_family(standard_plan(tier, 1), tier), RULE, &[]);
+    let (run, _) = run_e1("C02", tier, COUNTERS, C02, with_line_geometry(with_ep_slider_family(standard_plan(tier, 1), tier), false, 1), RULE, &[]);
     finish(&run, RULE)
 }
 pub fn replay(case: &Value) -> i32 {
